@@ -24,6 +24,8 @@ class Env:
         self.ca = pki.CA(os.path.join(work, 'pki'), 'ca')
         self.cert = self.ca.issue('/C=EE/O=Guardtime AS/CN=p/emailAddress=publications@guardtime.test')
         recs = [hdr(), cert_rec(self.cert)] + [pub_rec(self.t + 86400 * k, gen.rnd_imprint(rng, 1), refs=['ref']) for k in (1, 30, 60)]
+        # a record the test signature can really be extended to, with three publication references
+        recs.insert(3, pub_rec(self.t + 9 * 86400, self.cal.chain(self.t, self.t + 9 * 86400, self.sig.root).root(), refs=['ref one', 'ref two', 'ref three']))
         body = MAGIC + b''.join(x.enc() for x in recs)
         self.pubfile = (body + sig_rec(self.cert.pkcs7_detached(body, work)).enc()).hex()
 
@@ -139,6 +141,10 @@ def OPS(E):
         r.c('sigparse 0 0 empty ' + E.sig_hex)
         r.ext_root = E.sig.root
 
+    def with_net_pubfile(r):
+        with_net(r)
+        r.c('pubfileparse 0 0 ' + E.pubfile)
+
     def with_tcp(r):
         r.c('ctx 0')
         r.c('set_aggr 0 ksi+tcp://a.example:1 anon anon')
@@ -194,11 +200,13 @@ def OPS(E):
         'verify_general_nonet': (with_sig, one('verify 0 0 general', ('rc', 'res', 'err'))),
         'verify_document': (with_sig, one('verify 0 0 general api=document data=%s' % b'document'.hex())),
         'serialize': (with_sig, one('sigser 0', ('rc', 'hex'))),
+        'identity_getter': (with_sig, one('sigidentity 0', ('rc', 'n', 'ids'))),
         'clone': (with_sig, one('sigclone 0 1')),
         'sign_http': (with_net, one('sign 0 1 %s lvl=2' % h.hex(), ('rc', 'sig'))),
         'sign_tcp': (with_tcp, one('sign 0 1 %s' % h.hex(), ('rc', 'sig'))),
         'extend_http': (with_net, one('extend 0 0 1 to=%d' % (E.t + 7 * 86400), ('rc', 'sig'))),
         'extend_pubrec': (with_net, one('extend 0 0 1 pub=%s' % R.pub_string(E.t + 9 * 86400, E.cal.chain(E.t, E.t + 9 * 86400, E.sig.root).root()), ('rc', 'sig'))),
+        'extend_pubrec_from_file': (with_net_pubfile, one('extend 0 0 1 pubrecfile=0:%d' % (E.t + 9 * 86400), ('rc', 'sig'))),
         'verify_calendar': (with_net, one('verify 0 0 calendar', ('rc', 'res', 'err'))),
         'aggr_config': (with_net, one('getconf 0 aggr', ('rc', 'config'))),
         'pubfile_parse': (with_pki, one('pubfileparse 0 0 ' + E.pubfile)),
